@@ -738,6 +738,10 @@ def plan_C08(tier, seed):
     T = ("Trace_SunEarth", "Trace.cfg")
     nsh, per = (12, 110) if tier == "quick" else (48, 2500)
     sh = [Shard("sunearth_%02d" % i, drv_sunearth.gen_sunearth, dict(seed=seed, shard=i, n=per), *T) for i in range(nsh)]
+    # low-accuracy formulas around the solstices and equinoxes: quick the two ends of 1800..2200, thorough every year
+    ys = (list(range(1800, 1816)) + list(range(2185, 2201))) if tier == "quick" else list(range(1800, 2201))
+    nso = 4 if tier == "quick" else 16
+    sh += [Shard("solst_%02d" % i, drv_sunearth.gen_coarse_solstices, dict(years=ys[i::nso]), *T) for i in range(nso)]
     return dict(
         mc=[MC("MC_Octa", "MC_Octa.cfg", workers=8, heap="2g", note="rotation/dot-product algebra of Sphere.tla on lattice directions")],
         shards=sh, level="model_checking", exhaustive=False, nontrivial=_nt_c08,
@@ -748,7 +752,9 @@ def plan_C08(tier, seed):
              "J2000 ecliptic vs precession_ecliptical; mean obliquity vs the IAU cubic evaluated by TLC (3 arcsec, |T| <= 20), true "
              "= mean + nutation, nutation vs the 18.6-year main terms on the Moon's node (witness), date argument in every accepted "
              "form; low-accuracy solar formulas vs VSOP87 (0.02 deg, 1800-2200).",
-        assumptions=["coarse RA tolerance 0.025 deg (0.02 deg of longitude projected on the equator)"])
+        assumptions=["the 0.02 deg of the statement is applied to every output of the low-accuracy formulas (true and apparent longitude, "
+                     "right ascension, declination); the weeks around both solstices and equinoxes of the years at both ends of "
+                     "1800..2200 (thorough: of every year) are sampled daily"])
 
 
 def _nt_c09(ev):
